@@ -4,7 +4,7 @@
 From Coq Require Import Extraction ExtrOcamlBasic.
 From Prtpy Require Import Base.Prelude Base.Perms Model.Binner Model.Objectives Model.Greedy Model.Packing
      Model.Covering Model.KK Model.CG Model.DP Model.CBLDM Model.InExTree Model.SNP Model.BinCompletion
-     Oracle.Reach Oracle.Checkers Model.BinnerHeap Spec.AbsBins Model.Multifit Model.ILP Model.Output Model.BinCompletionNamed Model.BinCompletionTrace Model.SNPTrace.
+     Oracle.Reach Oracle.Checkers Model.BinnerHeap Spec.AbsBins Model.Multifit Model.ILP Model.Output Model.BinCompletionNamed Model.BinCompletionTrace Model.SNPTrace Model.Balanced.
 
 Extraction Language OCaml.
 
@@ -19,7 +19,7 @@ Separate Extraction
   Binner.new_bins Binner.add_item Binner.add_item_last Binner.sort_bins Binner.add_empty_bins
   Binner.remove_bins Binner.concatenate_bins Binner.combine_bins Binner.numitems Binner.sums
   Objectives.value Objectives.lower_bound Objectives.value_weighted
-  Greedy.greedy Greedy.roundrobin
+  Greedy.greedy Greedy.roundrobin Balanced.bidirectional_balanced
   Packing.first_fit Packing.first_fit_decreasing Packing.best_fit Packing.best_fit_decreasing
   Covering.cover_decreasing Covering.cover_twothirds Covering.cover_threequarters
   KK.kk KK.ckk KK.ckk_generator KK.all_combinations KK.ckk_bound KK.initial_heap KK.ckk_run
